@@ -1,4 +1,5 @@
 import RdsProofs.Reach
+import RdsProofs.ExtraProofs
 import RdsProofs.WordedProofs
 import RdsProofs.LinkProofs
 /-!
@@ -10,6 +11,8 @@ abstract fields and the AF list is exactly the set of codes received at least tw
 the abstract field (`AFld.recv true`): the visible value changes to v exactly when the previous reception also carried v.
 -/
 -- THEOREM: RDS.C09
+-- THEOREM: RDS.C09_text_indep_step
+-- THEOREM: RDS.C09_text_indep
 -- THEOREM: RDS.C09_worded
 -- THEOREM: RDS.extFold_shown
 -- THEOREM: RDS.extFold_no_double
